@@ -280,6 +280,25 @@ def check(pm: ProgramModel, ctx: Ctx) -> None:
             if wf:
                 ctx.violation("C04-WELLFORMED", f"shape:{wf[0][0]}", where, wf[0][1])
         ctx.analysed["C04:variants"] = nvar
+        # larger documents: twelve siblings, two-digit bounds, twelve levels of indentation, thirteen constraints,
+        # long identifiers - the same reference emitter, plain and with every identifier quoted
+        from ..codec import large_models
+        for key, big, what, _owns in large_models(mb, ("AND", "OR", "IMPLIES", "EQUIVALENCE")):
+            dbig = describe(big)
+            for quote_all in (False, True):
+                vfs = VFS()
+                vfs.files[PATH] = RefEmitter(quote_all).emit(big)
+                r = run_reader(pm, "UVLReader", vfs, setup=install_antlr)
+                label = f"large:{key}:{'quoted' if quote_all else 'plain'}"
+                if r["raise"]:
+                    ctx.violation("C04-DENOTES", f"{label}:raises", r["raise"][1] or where,
+                                  f"valid document ({what}) is rejected: {r['raise'][0]}")
+                    continue
+                ds = diff(dbig, describe(r["model"]), ctc_names=False, ctc_node_compare=equivalent_or_identical)
+                wfb = wellformed(r["model"])
+                ctx.check(not ds and not wfb, "C04-DENOTES", label, where,
+                          f"model read from a larger document ({what}) equals the model it was emitted from",
+                          bad=f"larger document ({what}): {(ds or wfb or [('', '')])[0][1]}")
         # negatives -------------------------------------------------------------------------------
         for key, text in NEGATIVES.items():
             vfs = VFS()
@@ -289,6 +308,16 @@ def check(pm: ProgramModel, ctx: Ctx) -> None:
             ctx.check(raised, "C04-ERRORS", f"negative:{key}", where,
                       f"invalid document ({key}) makes the reader raise: {r['raise'][0] if raised else ''}",
                       bad=f"a document with a syntax error ({key}) is accepted and a model is returned")
+        # history: a valid document read after documents that were rejected, in the same process, is read as in a
+        # fresh process (an error list, a listener or a parser kept across calls would carry the earlier errors over)
+        vfs = VFS()
+        vfs.files[PATH] = RefEmitter().emit(ref)
+        r = run_reader(pm, "UVLReader", vfs, setup=install_antlr)
+        ds = [] if r["raise"] else diff(dref, describe(r["model"]), ctc_names=True, ctc_node_compare=equivalent_or_identical)
+        ctx.check(not r["raise"] and not ds, "C04-DENOTES", "history:valid-after-rejected", where,
+                  "a valid document read after rejected ones denotes the same model as before",
+                  bad=f"a valid document read after the rejected ones: "
+                      f"{r['raise'][0] if r['raise'] else (ds or [('', '')])[0][1]}")
     alternatives(pm, ctx)
     ctx.floor("C04", "obligations", len(ctx.obligations), 40)
 
